@@ -528,3 +528,38 @@ func VH_C18_Misuse() {
 	vCheck(err2 == ErrPreviouslyReturnedError, "misuse/error-is-sticky")
 	vReach("misuse/done")
 }
+
+// VH_C18_Reuse: an Encoder abandoned in the middle of an image (too few AddN calls, optionally
+// after an AddN error: Reset is the documented way to recover) and then Reset for another image
+// writes exactly the bytes a fresh Encoder writes for that image. The abandoned image's DC
+// coefficient is symbolic, so every number of pending bits in the accumulator occurs.
+func VH_C18_Reuse() {
+	ct := ColorTypeGray
+	var used, fresh Encoder
+	first := &vhRec{}
+	vCheck(used.Reset(first, ct, 16, 8, nil) == nil, "reuse/reset-abandoned-image")
+	var a Array1BlockI16
+	a[0][0] = vhCoef("dc", true)
+	vCheck(used.Add1(first, &a) == nil, "reuse/add-abandoned-image")
+	if vBool("then-an-error") {
+		var bad Array1BlockI16
+		bad[0][5] = 2000
+		vCheck(used.Add1(first, &bad) == ErrInvalidBlockI16, "reuse/invalid-block-rejected")
+	}
+	var b Array1BlockI16
+	b[0][0], b[0][1], b[0][8] = 37, -3, 1 // the second image is fixed; what the first one left behind is not
+	outU, outF := &vhRec{}, &vhRec{}
+	vCheck(used.Reset(outU, ct, 8, 8, nil) == nil, "reuse/reset-after-abandoned-image")
+	vCheck(fresh.Reset(outF, ct, 8, 8, nil) == nil, "reuse/reset-fresh")
+	vCheck(used.Add1(outU, &b) == nil, "reuse/add-reused")
+	vCheck(fresh.Add1(outF, &b) == nil, "reuse/add-fresh")
+	vCheck(len(outU.all) == len(outF.all), "reuse/same-length-as-a-fresh-encoder")
+	if len(outU.all) == len(outF.all) {
+		same := true
+		for i := range outU.all {
+			same = vAnd(same, outU.all[i] == outF.all[i])
+		}
+		vCheck(same, "reuse/same-bytes-as-a-fresh-encoder")
+	}
+	vReach("reuse/done")
+}
